@@ -49,11 +49,12 @@ def check(ctx):
         m1.caught(sw, "C10_quick.cfg")
     traces = anngen.run(ctx.seed, ctx.pick(360, 6000), ctx.pick(7, 10), INSTS, list("ABCDEF"), tag="c10")
     bad, ms = judge(ctx, "Mon_C10", traces, "announcer histories", anngen.payload)
+    sim = anngen.spec_to_code_ann(ctx, "Mon_C10", "[C10_A EXCEPT !.randVals = {0}]", "C10_Inputs", "A", ["I1"], ["I1"], ctx.pick(25, 400))
     probes = simple_service_probe(ctx)
     acc, total = anngen.conform_by_variant(ctx, traces, ctx.pick(120, 1200))
     cov = dict(states=m1.states, transitions=m1.trans, traces_validated_against_impl=acc, monitor_traces=len(traces),
                monitor_failures=bad, monitor_states=ms, conformance_traces=total, spec_drift=total - acc,
-               tlc_runs=m1.runs, helper_probe_failures=probes, exhaustive=False,
+               tlc_runs=m1.runs, helper_probe_failures=probes, exhaustive=False, **sim,
                samples=[{"variant": traces[0]["variant"], "schedule": traces[0]["sched"], "trace": traces[0]["ev"][:24]}],
                rule="TLC: announcer part of SD.tla (offer task with the exact hop structure, collector, find answers) x "
                     "Mon_C10, all schedules of 3(-4) inputs {start, stop (also of a stopped announcer), unicast/multicast "
